@@ -107,6 +107,8 @@ pub static DEAD_LETTER_EVENTS: AtomicU64 = AtomicU64::new(0);
 pub static SLOW_LOG_MS: AtomicU64 = AtomicU64::new(0);
 pub static SLOW_LOG_STALLS: AtomicU64 = AtomicU64::new(0);
 pub static SLOW_LOG_SEED: AtomicU64 = AtomicU64::new(1);
+/// with the slow mode on: stall on every event of the crate, not on a random quarter of them
+pub static SLOW_LOG_ALWAYS: std::sync::atomic::AtomicBool = std::sync::atomic::AtomicBool::new(false);
 static SLOW_LOG_THREADS: AtomicU64 = AtomicU64::new(0);
 thread_local! {
     static SLOW_RNG: Cell<u64> = Cell::new(0);
@@ -123,7 +125,7 @@ fn slow_stall(max_ms: u64) {
         c.set(x);
         x
     });
-    if (r >> 8) % 4 == 0 {
+    if (r >> 8) % 4 == 0 || SLOW_LOG_ALWAYS.load(Ordering::Relaxed) {
         SLOW_LOG_STALLS.fetch_add(1, Ordering::SeqCst);
         std::thread::sleep(std::time::Duration::from_millis(max_ms / 5 + (r >> 16) % (max_ms - max_ms / 5 + 1)));
     }
